@@ -13,7 +13,7 @@ LEVEL = "proof"
 READY = True
 CLAIM = {
     "text": "Lean theorems for compound queries with ANY number of | and & operands: findall is the list of values of finditer, the result is the left-to-right "
-            "fold (union = left followed by right; intersection = left restricted to values also produced by right), match is the head of finditer; a counter-model of the "
+            "fold (union = left followed by right; intersection = left restricted to values also produced by right, values compared as JSON values - intersection_by_json_value), match is the head of finditer; a counter-model of the "
             "pre-repair late-bound generator expression is proved to differ. The model (evaluator + compound fold) is tied to path.py/env.py differentially, and the "
             "agreement of all entry points (environment-level and compiled; findall, finditer, match, query().values(); sync and async; parsed value, JSON text, "
             "StringIO and BytesIO) is evaluated directly on the implementation for every case.",
